@@ -7,6 +7,7 @@ pub mod c17plan;
 pub mod crashcase;
 pub mod hexcase;
 pub mod iogen;
+pub mod libcase;
 pub mod newcase;
 pub mod newplans;
 
@@ -21,6 +22,7 @@ pub enum AnyCase {
     New(newcase::NewCase),
     Crash(crashcase::CrashCase),
     Acct(acctcase::AcctCase),
+    Lib(libcase::LibCase),
 }
 
 impl AnyCase {
@@ -30,6 +32,7 @@ impl AnyCase {
             AnyCase::New(c) => c.run(ctx, dir),
             AnyCase::Crash(c) => c.run(ctx, dir),
             AnyCase::Acct(c) => c.run(ctx, dir),
+            AnyCase::Lib(c) => c.run(ctx, dir),
         }
     }
 
@@ -39,6 +42,17 @@ impl AnyCase {
         match self {
             AnyCase::Hex(_) | AnyCase::Crash(_) | AnyCase::Acct(_) => None,
             AnyCase::New(c) => c.explicit(report).map(AnyCase::New),
+            AnyCase::Lib(c) => c.explicit(report).map(AnyCase::Lib),
+        }
+    }
+
+    /// The same scenario under a freshly seeded scheduler (E2 cases whose
+    /// schedule is an explicit trace), for re-searching after a structural shrink.
+    pub fn reseeded(&self, k: u64) -> Option<AnyCase> {
+        match self {
+            AnyCase::New(c) => c.reseeded(k).map(AnyCase::New),
+            AnyCase::Lib(c) => c.reseeded(k).map(AnyCase::Lib),
+            _ => None,
         }
     }
 
@@ -49,6 +63,7 @@ impl AnyCase {
             AnyCase::New(c) => c.shrink_candidates().into_iter().map(AnyCase::New).collect(),
             AnyCase::Crash(c) => c.shrink_candidates().into_iter().map(AnyCase::Crash).collect(),
             AnyCase::Acct(c) => c.shrink_candidates().into_iter().map(AnyCase::Acct).collect(),
+            AnyCase::Lib(c) => c.shrink_candidates().into_iter().map(AnyCase::Lib).collect(),
         }
     }
 }
